@@ -307,18 +307,10 @@ class ParallelBeamGeometry(Geometry):
         normal = self.detector.surface_normal(dparam)  # shape (d, ndim)
 
         # Perform matrix-vector multiplication along the last axis of both
-        # `matrix` and `normal` while "zipping" all axes that do not
-        # participate in the matrix-vector product. In other words, the axes
-        # are labelled
-        # [0, 1, ..., r-1, r, r+1] for `matrix` and
-        # [0, 1, ..., r-1, r+1] for `normal`, and the output axes are set to
-        # [0, 1, ..., r-1, r]. This automatically supports broadcasting
-        # along the axes 0, ..., r-1.
-        matrix_axes = list(range(matrix.ndim))
-        normal_axes = list(range(matrix.ndim - 2)) + [matrix_axes[-1]]
-        out_axes = list(range(matrix.ndim - 1))
-        det_to_src = np.einsum(matrix, matrix_axes, normal, normal_axes,
-                               out_axes)
+        # `matrix` and `normal` while broadcasting all axes that do not
+        # participate in the matrix-vector product against each other
+        # (also if the two parameters have different numbers of axes).
+        det_to_src = np.einsum('...ij,...j->...i', matrix, normal)
         if squeeze_angle and squeeze_dparam:
             det_to_src = det_to_src.squeeze()
 
